@@ -197,7 +197,7 @@ func c35Gen(t *rapid.T) c35Case {
 	if c.Side < 2 {
 		// mostly DATA and unknown frames; the other kinds are rarer
 		kinds := []int{c35KData, c35KData, c35KData, c35KUnknown, c35KUnknown, c35KUnknown, c35KReserved, c35KMisplaced, c35KTrailers, c35KHeadersRaw}
-		if c35Pick(t, "plain", 3) == 0 {
+		if c35Pick(t, "plain", 2) == 0 {
 			kinds = []int{c35KData, c35KData, c35KUnknown}
 		}
 		c.Frames = rapid.SliceOfN(rapid.Custom(func(t *rapid.T) c35Frame { return c35GenFrame(t, kinds) }), 0, 10).Draw(t, "frames")
